@@ -137,6 +137,15 @@ def parse_list(s):
     return s.strip("[]").split()
 
 
+def all_flags(s):
+    """every FLAGS=… group of a spec line (per-name groups included)"""
+    import re
+    out = set()
+    for m in re.finditer(r"FLAGS=([A-Za-z0-9,\-]+)", s or ""):
+        out |= set(m.group(1).split(","))
+    return out
+
+
 def split_spec(s):
     """'[a b] FLAGS=x,y' -> (['a','b'], {'x','y'})"""
     flags = set()
@@ -146,3 +155,69 @@ def split_spec(s):
     elif s.startswith("FLAGS="):
         flags = set(s[6:].strip().split(",")); s = "[]"
     return parse_list(s), flags
+
+
+def check_spec(run, cases, ia, ma, sp, kinds=("goto", "resolve")):
+    """impl answer must be one of the spec-acceptable definitions"""
+    v = run.verdict
+    nfail = 0
+    for k, s in sp.items():
+        q = cases.queries[k]
+        if q[1] not in kinds:
+            continue
+        a = ia.get(k)
+        if a is None:
+            continue
+        acc, flags = split_spec(s)
+        ok = (a == "none" and not acc) or (a in acc)
+        if ok:
+            continue
+        nfail += 1
+        same = core.agree(a, ma.get(k, ""))
+        explained = [run.known_by_hyp[h] for h in flags if h in run.known_by_hyp]
+        if same and explained:
+            e = explained[0]
+            v.known(e["id"], e["summary"])
+            continue
+        msg = (f"{' '.join(q)} in case {k[0]}: implementation answers {a}, the property allows {acc or 'nothing'}"
+               f" (model answers {ma.get(k)}; failed hypotheses: {sorted(flags) or 'none'})")
+        rep = (f"# {msg}\n# failing query is #{k[1]}: {' '.join(q)}\n" + cases.replay_text(k[0]))
+        v.violation(f"{k[0]}-{k[1]}", msg, rep)
+    run.stats["spec_failures_explained_or_not"] = run.stats.get("spec_failures_explained_or_not", 0) + nfail
+
+
+
+def corpus_cases(cases, prop):
+    """minimised past failures and the witnesses of known findings run first"""
+    import glob, os
+    for p in sorted(glob.glob(os.path.join(core.VERIF, "corpus", prop, "*.case"))):
+        load_case_file(cases, p)
+
+
+def load_case_file(cases, path):
+    for line in open(path, encoding="utf-8"):
+        line = line.rstrip("\n")
+        if not line or line.startswith("#"):
+            continue
+        t = line.split()
+        if t[0] == "case":
+            cases.case(t[1], {"corpus": path})
+        elif t[0] == "op":
+            cases.op(*t[1:])
+        elif t[0] == "q":
+            cases.q(*t[1:])
+        else:
+            cases.raw(line)
+
+
+def generic_replay(prop, module, theorems, path):
+    r = Run(prop, module, theorems, "quick", 0)
+    r.prepare()
+    cases = core.Cases()
+    load_case_file(cases, path)
+    ia, ma, sp = r.run_cases(cases)
+    for k in sorted(cases.queries):
+        print(k[0], k[1], " ".join(cases.queries[k]))
+        print("   impl :", ia.get(k)); print("   model:", ma.get(k))
+        if k in sp: print("   spec :", sp[k])
+    return 0
